@@ -21,7 +21,9 @@ RowOK(r) ==
             ELSE r.raised = 0 /\ Len(r.r) = r.len /\ r.r = Expand(r.H, r.msg, r.dst, r.len)
        [] r.op = "h2f" ->
             IF Aborts(r.H, r.dst, r.count * r.m * 64) THEN r.raised = 1
-            ELSE r.raised = 0 /\ r.r = HashToField(r.H, r.msg, r.dst, r.count, r.m, r.p)
+            ELSE /\ r.raised = 0
+                 /\ Expand(r.H, r.msg, r.dst, r.count * r.m * 64) # NoHash     \* defined before it is compared
+                 /\ r.r = HashToField(r.H, r.msg, r.dst, r.count, r.m, r.p)
        [] OTHER -> FALSE
 
 Init == i = 0
